@@ -1,7 +1,10 @@
 #![allow(dead_code)]
 mod decode;
 mod encode;
+mod respond;
 mod rng;
+mod sim;
+mod smoke;
 mod txt;
 mod wire;
 
@@ -62,6 +65,17 @@ fn main() {
                                      if only { 0 } else { 1500 * k }, if only { 0 } else { 2000 * k },
                                      if only { 0 } else if thorough { 5 } else { 4 }, &out);
             println!("{}", json!({"summary": summary}));
+        }
+        "smoke" => smoke::run(&out),
+        "respond" => {
+            let from: u64 = a.get("from").and_then(|s| s.parse().ok()).unwrap_or(1);
+            let to: u64 = a.get("to").and_then(|s| s.parse().ok()).unwrap_or(a.get("n").and_then(|s| s.parse().ok()).unwrap_or(40));
+            let mut lines = Vec::new();
+            for id in from..=to {
+                lines.extend(respond::scenario(id, seed, thorough));
+            }
+            sim::write_trace(&out, &lines);
+            println!("{}", json!({"summary": {"scenarios": to + 1 - from, "lines": lines.len()}}));
         }
         "txt-bytes" => {
             let h = a.get("hex").cloned().unwrap_or_default();
